@@ -12,6 +12,9 @@ PROGS = [
     {"nodes": [L("a"), {"k": "wfc", "polls": 2}, L("b"), {"k": "invoke"}, L("c")]},
     {"nodes": [L("a"), {"k": "wfcb"}, L("b"), {"k": "wait"}, L("c")]},
     {"nodes": [L("a"), {"k": "step", "loginside": True, "fail": 1, "max": 2}, L("b"), {"k": "step", "sem": "AMO"}, L("c")]},
+    # a completed operation followed by a step / condition that is READY (its retry timer has fired) when the invocation resumes
+    {"nodes": [L("a"), {"k": "step"}, L("b"), {"k": "step", "loginside": True, "fail": 1, "max": 2}, L("c"), {"k": "wait"}, L("d")]},
+    {"nodes": [{"k": "step"}, L("a"), {"k": "wfc", "polls": 2}, L("b"), {"k": "step"}, L("c")]},
     # a callback that is still outstanding when the invocation resumes (a visited operation that is NOT complete), followed in
     # program order by completed operations
     {"nodes": [L("a"), {"k": "cb", "between": [L("m"), {"k": "step"}, L("n"), {"k": "wait"}, L("o"), {"k": "step"}, L("p")]}, L("b")]},
